@@ -164,7 +164,11 @@ theorem C04_callbacks :
     C04_accepts (C04_good [(.s "minlength", .str "three")]) = false ∧
     C04_accepts (C04_good [(.s "default", .int 1)]) = false ∧
     C04_accepts (C04_good [(.s "valuesrules", .str "no_such_reference")]) = false ∧
-    C04_accepts (C04_good [(.s "anyof", .seq false [.str "not a rule set"])]) = false := by
+    C04_accepts (C04_good [(.s "anyof", .seq false [.str "not a rule set"])]) = false ∧
+    -- a rule name that is not a string; a rule and a checker that only the internal schema validator has
+    C04_accepts (C04_good [(.i 7, .int 1)]) = false ∧
+    C04_accepts (C04_good [(.s "logical", .str "anyof")]) = false ∧
+    C04_accepts (C04_good [(.s "check_with", .str "bulk_schema")]) = false := by
   decide +kernel
 
 end Cerberus
